@@ -50,6 +50,12 @@ check("C08","bounded-exhaustive: every set of <=3 response keys x 12 status code
 check("C09","bounded-exhaustive: every validated document with 1-2 (thorough 1-3) templates over {a,b,{x},{y}} x method sets x 5 server forms; every request path of the path alphabet under matching and non-matching prefixes x 3 methods, origin-form and absolute-form; both routers, legacy under both map orders; four invariants against an independent segment matcher",
  "independent matcher mc/ref/route.go; server model by listed prefixes; paths with empty segments only for no-panic and operation identity",
  "bounded exhaustive enumeration of (document, request) on both routers with invariants and an independent matcher","3 C09")
+check("C10","bounded-exhaustive hostile traffic: 45 schemas (incl. the legal-but-unusual shapes) at every traffic-reachable position (19 parameter cells, 10 body media types, response headers by schema/content, response bodies), gated by Validate, x 30 texts / 30 raw queries / 27 bodies x Content-Type headers x methods x paths x status codes x option sets, through both routers, ValidateRequest, ConvertErrors, ValidateResponse, the middleware: each call must return within the step budget",
+ "returns-normally invariant (panic, instrumented step budget, worker death); quick tier thins schemas for the body and response families",
+ "bounded exhaustive enumeration of (document feature, position, traffic) on the real code with a returns-normally invariant","3 C10")
+check("C13","explicit-state over request histories: for every operation shape with defaults (4 parameter kinds incl. 5 array serialisations, 8 body schemas incl. allOf/oneOf/anyOf over objects and arrays) x every presence pattern x SkipSettingDefaults x body-reading authentication callback x client/server-style request: validate, next handler reads, validate again, read again; every intermediate request state is compared with the reference apply-defaults",
+ "reference apply-defaults mc/checks/c13.go; the second validation uses a fresh input for the forwarded request",
+ "explicit-state exploration of validate/read histories on the real validator against a reference state","3 C13")
 NA_REASON="check not built yet (work in progress; see DESIGN.md section 5)"
 m={"version":1,"setup_cmd":"bin/setup",
  "hooks":{"guard":"verif","enable":"go build -tags verif -overlay <generated> (bin/check does it on every invocation, regenerating the overlay from /repo's working tree)","baseline_off_cmd":"bin/baseline","source_commits":["4b7cd63"],"add_only":True},
